@@ -127,6 +127,9 @@ def check_message(msg, table, msa, res, which):
 def check(case):
     res = Result()
     res.labels = [case['cls']]
+    if any(r[2] is not None and not 0 <= r[2] < 100000 for r in case['rows']):
+        res.skipped = 'hit heights outside [0, 1e5) ft (outside the quantifier; reached through the shared corpus)'
+        return res
     try:
         chunk = observe.run_case(case)
     except Exception as exc:  # C08's domain
